@@ -84,10 +84,11 @@ def run_check(prop, tier):
     procs = []
     for k in range(nshards):
         out = os.path.join(work, f"shard-{k}.json")
-        extra = {}
+        # nothing a property speaks about depends on the machine's own time zone: a quarter of the shards each run west and east of UTC
+        extra = {"TZ": ("UTC", "America/New_York", "UTC", "Asia/Kolkata")[k % 4]}
         shard_env = getattr(module, "shard_env", None)
         if shard_env:
-            extra = shard_env(tier, k, nshards) or {}
+            extra.update(shard_env(tier, k, nshards) or {})
         log = open(os.path.join(work, f"shard-{k}.log"), "w")
         p = subprocess.Popen(
             [paths.PYTHON, "-m", "vmon.worker", prop, tier, str(seed), str(k), str(nshards), out],
